@@ -58,12 +58,14 @@ def main(argv=None):
                 else:
                     n = min(len(lg["runs"]), len(base["runs"]))
                     # runs are sorted by run seed; compare those present in both
-                    a = {r["run_seed"]: r for r in base["runs"]}
-                    b = {r["run_seed"]: r for r in lg["runs"]}
+                    a = {(r["run_seed"], r.get("sweep_ordinal")): r for r in base["runs"]}
+                    b = {(r["run_seed"], r.get("sweep_ordinal")): r for r in lg["runs"]}
                     common = sorted(set(a) & set(b))
                     same = bool(common) and all(a[k] == b[k] for k in common)
-                    va = {json.dumps(v, sort_keys=True) for v in base["violations"] if v[0] in b}
-                    vb = {json.dumps(v, sort_keys=True) for v in lg["violations"] if v[0] in a}
+                    sa = {k[0] for k in a}
+                    sb = {k[0] for k in b}
+                    va = {json.dumps(v, sort_keys=True) for v in base["violations"] if v[0] in sb}
+                    vb = {json.dumps(v, sort_keys=True) for v in lg["violations"] if v[0] in sa}
                     same = same and va == vb
                     n = len(common)
                 print("selftest: %s seed=%d %s vs %s: %s (%s compared)" % (
